@@ -1,6 +1,8 @@
 package backend
 
 import (
+	"time"
+
 	"github.com/brocaar/lorawan"
 )
 
@@ -178,5 +180,34 @@ func VerifC17_HEXAnyText(n int) {
 	var w HEXBytes
 	w.UnmarshalText(text)
 	verifAssert(verifBytesEq(text, orig), "HEXBytes.UnmarshalText does not modify its input")
+	verifReach("done")
+}
+
+// ISO8601Time: text round trip to one second, for every instant (1970-01-02 .. 2106) in every zone (whole minutes).
+// zoneMode 0: UTC, 1: arbitrary offset.
+func VerifC17_ISO8601(zoneMode int) {
+	sec := verifNondetU32("unixSeconds")
+	nsec := verifNondetU32("nanoseconds") % 1000000000
+	verifAssume(sec >= 86400)
+	verifAssume(sec < 1<<32-86400-1)
+	off := 0
+	if zoneMode == 1 {
+		off = int(verifNondetI16("zoneOffsetMinutes")) * 60
+		verifAssume(off >= -14*3600)
+		verifAssume(off <= 14*3600)
+	}
+	t := verifTimeWithZone(verifTimeFromUnixNano(int64(uint64(sec))*1000000000+int64(uint64(nsec))), off)
+	txt, err := ISO8601Time(t).MarshalText()
+	verifAssert(err == nil, "ISO8601Time.MarshalText succeeds")
+	var back ISO8601Time
+	err = back.UnmarshalText(txt)
+	verifAssert(err == nil, "ISO8601Time.UnmarshalText accepts what MarshalText produced")
+	verifAssert(time.Time(back).Unix() == int64(uint64(sec)), "ISO8601Time survives its text form to one second (same instant, whatever the zone)")
+	// a second encode gives the same instant again
+	txt2, err := back.MarshalText()
+	verifAssert(err == nil, "re-encoding succeeds")
+	var back2 ISO8601Time
+	verifAssert(back2.UnmarshalText(txt2) == nil, "re-decoding succeeds")
+	verifAssert(time.Time(back2).Unix() == int64(uint64(sec)), "ISO8601Time: decode(encode(decode(encode(t)))) is the same instant")
 	verifReach("done")
 }
